@@ -82,26 +82,27 @@ fn arb_w(kind: Kind) -> BoxedStrategy<W> {
 
 fn arb_op(kind: Kind) -> impl Strategy<Value = Op> {
     prop_oneof![
-        8 => (any::<bool>(), any::<bool>(), arb_small_cap(), arb_small_cap())
+        16 => (any::<bool>(), any::<bool>(), arb_small_cap(), arb_small_cap())
             .prop_map(|(sync, keep, in_cap, out_cap)| Op::Attach { sync, keep, in_cap, out_cap }),
         // a SYNC consumer is the usual case
-        4 => (arb_small_cap(), arb_small_cap())
+        8 => (arb_small_cap(), arb_small_cap())
             .prop_map(|(in_cap, out_cap)| Op::Attach { sync: true, keep: true, in_cap, out_cap }),
-        24 => (any::<u16>(), arb_w(kind)).prop_map(|(c, w)| Op::Write { c, w }),
-        10 => (any::<u16>(), arb_nbytes()).prop_map(|(c, n)| Op::CPump { c, n }),
-        12 => (any::<u16>(), arb_nbytes()).prop_map(|(c, n)| Op::CRead { c, n }),
-        2 => any::<u16>().prop_map(|c| Op::CDrop { c }),
-        12 => arb_nbytes().prop_map(|n| Op::RRead { n }),
-        12 => arb_nbytes().prop_map(|n| Op::RPump { n }),
-        6 => arb_w(kind).prop_map(|w| Op::RChange { w }),
+        48 => (any::<u16>(), arb_w(kind)).prop_map(|(c, w)| Op::Write { c, w }),
+        20 => (any::<u16>(), arb_nbytes()).prop_map(|(c, n)| Op::CPump { c, n }),
+        24 => (any::<u16>(), arb_nbytes()).prop_map(|(c, n)| Op::CRead { c, n }),
+        3 => any::<u16>().prop_map(|c| Op::CDrop { c }),
+        24 => arb_nbytes().prop_map(|n| Op::RRead { n }),
+        24 => arb_nbytes().prop_map(|n| Op::RPump { n }),
+        12 => arb_w(kind).prop_map(|w| Op::RChange { w }),
+        // the link ends early in roughly a third of the cases (lane unlinks / connection drops / stop)
         1 => Just(Op::RUnlink),
         1 => Just(Op::RClose),
-        14 => (1usize..6).prop_map(|k| Op::Poll { k }),
-        3 => Just(Op::Poll { k: 1000 }),
-        2 => (1u64..400).prop_map(|ms| Op::Advance { ms }),
-        1 => (400u64..1500).prop_map(|ms| Op::Advance { ms }),
         1 => Just(Op::Stop),
-        4 => Just(Op::Settle),
+        28 => (1usize..6).prop_map(|k| Op::Poll { k }),
+        6 => Just(Op::Poll { k: 1000 }),
+        4 => (1u64..400).prop_map(|ms| Op::Advance { ms }),
+        2 => (400u64..1500).prop_map(|ms| Op::Advance { ms }),
+        8 => Just(Op::Settle),
     ]
 }
 
@@ -755,11 +756,36 @@ fn check(case: &Case) -> Verdict {
                         v.fail(sig, detail);
                     }
                     if alive && live_link {
+                        // `synced` frames that answer a sync request the lane read after this consumer attached
+                        let linked_seq = c.frames[l].0;
+                        let answers: Vec<&Emission> = obs.emitted[..obs.snap_emitted]
+                            .iter()
+                            .filter(|e| match e.kind {
+                                EmKind::Synced { req_seq } => req_seq > c.attach_seq && e.pumped.is_some(),
+                                _ => false,
+                            })
+                            .collect();
+                        // one that entered the runtime after the consumer had read `linked` certainly found
+                        // the consumer on the read side
+                        let ignored = answers.iter().any(|e| e.pumped.unwrap() > linked_seq);
+                        let (cell, why) = if answers.is_empty() {
+                            ("no-sync-after-attach", "; no sync request reached the lane after it attached")
+                        } else if ignored {
+                            (
+                                "synced-ignored",
+                                " although a synced frame answering a sync request made after it attached reached the runtime after the consumer had read linked",
+                            )
+                        } else {
+                            (
+                                "sync-answered-after-attach",
+                                " although the lane answered a sync request that it read after the consumer attached (every such synced had reached the runtime before the consumer read linked: it may have passed before the read side knew the consumer)",
+                            )
+                        };
                         v.fail(
-                            format!("never-synced:{}", kn),
+                            format!("never-synced:{}/{}", kn, cell),
                             format!(
-                                "consumer {} asked to be synced, the link is up and everything was delivered, but it never received synced; frames {:?}; wire {:?}",
-                                ci, c.frames, obs.received
+                                "consumer {} (attached at seq {}, read linked at seq {}) asked to be synced, the link is up and everything was delivered, but it never received synced{}; frames {:?}; wire {:?}",
+                                ci, c.attach_seq, linked_seq, why, c.frames, obs.received
                             ),
                         );
                     }
@@ -1127,8 +1153,8 @@ fn main() {
     if let Err(e) = selftest() {
         ctx.inconclusive(format!("key table self test failed: {}", e));
     }
-    let n_value = ctx.pick(120_000, 6_000_000);
-    let n_map = ctx.pick(120_000, 6_000_000);
+    let n_value = ctx.pick(100_000, 6_000_000);
+    let n_map = ctx.pick(100_000, 6_000_000);
     let max_ops = ctx.pick(70, 160);
     ctx.prop("value-session", n_value, move || arb_case(Kind::Value, max_ops), check);
     ctx.prop("map-session", n_map, move || arb_case(Kind::Map, max_ops), check);
